@@ -351,6 +351,38 @@ def relevant(cons, seed_atoms, extra_rounds=8):
 _DEFS = {}
 
 
+def ensure_registered(a):
+    """register static bounds of an atom from its structure when nothing is known yet"""
+    if a in ATOM_LO and (ATOM_LO[a] is not None or ATOM_HI[a] is not None):
+        return
+    if not (isinstance(a, tuple) and a):
+        return
+    k = a[0]
+    lo = hi = m = None
+    if k == "byte":
+        lo, hi, m = 0, 255, 255
+    elif k in ("len", "veclen", "cap"):
+        lo, hi = 0, I64MAX
+    elif k == "and" and len(a) == 3 and isinstance(a[2], int):
+        lo, hi, m = 0, a[2], a[2]
+    elif k == "shr" and len(a) == 3 and isinstance(a[2], int):
+        try:
+            x = lin_from_key(a[1])
+            for b in x.atoms():
+                ensure_registered(b)
+            xlo, xhi = static_bounds(x)
+            if xlo is not None and xlo >= 0 and xhi is not None:
+                lo, hi = xlo >> a[2], xhi >> a[2]
+        except Exception:
+            pass
+    if lo is not None or hi is not None:
+        ATOM_LO[a] = lo
+        ATOM_HI[a] = hi
+        if m is None and lo is not None and lo >= 0 and hi is not None:
+            m = (1 << hi.bit_length()) - 1
+        ATOM_MASK[a] = m
+
+
 def atom_defs(a):
     """definitional facts (list of (dict,c) >= 0) of a structured atom; valid in every state"""
     d = _DEFS.get(a)
@@ -360,6 +392,10 @@ def atom_defs(a):
     if isinstance(a, tuple) and a:
         k = a[0]
         try:
+            if k in ("and", "shr", "div", "rem") and len(a) == 3:
+                ensure_registered(a)
+                for b_ in lin_from_key(a[1]).atoms():
+                    ensure_registered(b_)
             if k == "and" and len(a) == 3 and isinstance(a[2], int):
                 x = lin_from_key(a[1])
                 c = a[2]
